@@ -22,7 +22,7 @@
    OUTPUT  (0) a ValueError is raised | (1) the bounds are accepted
    An undecodable case answers (2). *)
 From Coq Require Import ZArith QArith List Bool.
-From RV Require Import Base.Wire Base.NumM Base.XFloat Host.Servo Host.ActuatorsX.
+From RV Require Import Base.Wire Base.NumM Base.XFloat Host.Servo Host.ActuatorsX Host.ServoFloat.
 Import ListNotations.
 Open Scope Z_scope.
 
@@ -48,26 +48,26 @@ Definition wsev (e : sev) : wv :=
 Definition wsret (r : sret) : wv :=
   match r with SNone => WL [WI 0] | SFloat q => WL [WI 1; wqr q] end.
 
-Fixpoint servo_steps (s : servo) (ops : list wv) : option (list wv) :=
+Fixpoint servo_steps (stepf : servo -> sop -> servo * list sev * result sret) (s : servo) (ops : list wv) : option (list wv) :=
   match ops with
   | [] => Some []
   | o :: r =>
       match un_sop o with
       | None => None
       | Some op =>
-          let '(s', evs, res) := sstep s op in
+          let '(s', evs, res) := stepf s op in
           let head := match res with
                       | Ok ret => WL [WI 0; wsret ret; wservo s'; WL (map wsev evs)]
                       | Raised k => WL [WI 1; wexn k; wservo s'; WL (map wsev evs)]
                       end in
-          match servo_steps s' r with
+          match servo_steps stepf s' r with
           | Some tl => Some (head :: tl)
           | None => None
           end
       end
   end.
 
-Definition run_servo (args : wv) (ops : list wv) : wv :=
+Definition run_servo (stepf : servo -> sop -> servo * list sev * result sret) (args : wv) (ops : list wv) : wv :=
   match args with
   | WL [p; a1; a2; p1; p2] =>
       match un_opt_pynum p, un_opt_pynum a1, un_opt_pynum a2, un_opt_pynum p1, un_opt_pynum p2 with
@@ -75,7 +75,7 @@ Definition run_servo (args : wv) (ops : list wv) : wv :=
           match servo_ctor (mkServoArgs p' a1' a2' p1' p2') with
           | inr k => WL [WL [WI 1; wexn k]]
           | inl s =>
-              match servo_steps s ops with
+              match servo_steps stepf s ops with
               | Some l => WL (WL [WI 0; wservo s] :: l)
               | None => wbad
               end
@@ -87,7 +87,8 @@ Definition run_servo (args : wv) (ops : list wv) : wv :=
 
 Definition run (v : wv) : wv :=
   match v with
-  | WL [WI 0; args; WL ops] => run_servo args ops
+  | WL [WI 0; args; WL ops] => run_servo sstep args ops
+  | WL [WI 4; args; WL ops] => run_servo sstep_fl args ops   (* the two maps in binary64 (Host/ServoFloat.v): compared exactly *)
   | WL [WI 1; a; b; c; d] =>
       match un_xfloat a, un_xfloat b, un_xfloat c, un_xfloat d with
       | Some a', Some b', Some c', Some d' => WL [wbool (servo_bounds_accepted a' b' c' d')]
